@@ -459,7 +459,11 @@ impl SchemaRegistry {
   ) -> BTreeSet<String> {
     let initial_refs = operation_registry
       .operations()
-      .flat_map(|entry| self.collect_refs_from_operation(&entry.operation, union_fingerprints))
+      .flat_map(|entry| {
+        let mut refs = self.collect_refs_from_operation(&entry.operation, union_fingerprints);
+        refs.extend(self.collect_refs_from_path_item(&entry.path, union_fingerprints));
+        refs
+      })
       .collect::<BTreeSet<_>>();
 
     let graph = DiGraphMap::<&str, ()>::from_edges(
@@ -772,6 +776,24 @@ impl SchemaRegistry {
       schema: acc.into_schema(schema),
       discriminator_parent,
     }
+  }
+
+  /// Collects schema references from the parameters declared on the path item
+  /// of `path`, which every operation under that path inherits.
+  fn collect_refs_from_path_item(&self, path: &str, union_fingerprints: &UnionFingerprints) -> BTreeSet<String> {
+    let mut refs = BTreeSet::new();
+
+    if let Some(path_item) = self.spec.paths.as_ref().and_then(|p| p.get(path)) {
+      for param in &path_item.parameters {
+        if let Ok(resolved_param) = param.resolve(&self.spec)
+          && let Some(ref schema_ref) = resolved_param.schema
+        {
+          refs.extend(self.collect_ref(schema_ref, union_fingerprints));
+        }
+      }
+    }
+
+    refs
   }
 
   /// Collects schema references from an operation.
